@@ -13,12 +13,8 @@ Section KnnProofs.
   Notation qelem := (@qelem I R).
   Notation qnode := (@qnode I R).
   Notation queue := (@queue I R).
-  Notation knn_order := (knn_order d lb).
-  Notation knn_loop := (knn_loop d lb).
-  Notation push_items := (push_items (R := R) d).
-  Notation push_children := (push_children (I := I) lb).
 
-  (* ---- the queue: pop returns a minimal entry and leaves the others ---- *)
+  (* ---- the list discipline: pop returns a minimal entry and leaves the others ---- *)
   Lemma pop_min_none (q : queue) : pop_min q = None -> q = [].
   Proof.
     destruct q as [|x r]; [reflexivity|]. cbn [pop_min].
@@ -42,6 +38,38 @@ Section KnnProofs.
         * etransitivity; [apply perm_skip; exact Hp|]. apply perm_swap.
         * constructor; [lia|exact Hf].
     - injection H as <- <-. apply pop_min_none in E. subst r. split; [reflexivity|constructor].
+  Qed.
+
+  (* ---- what the proofs need of a queue discipline ---- *)
+  Definition queue_ok (qpush : queue -> qnode -> queue) (qpop : queue -> option (qnode * queue)) : Prop :=
+    (forall q e, Permutation (qpush q e) (e :: q)) /\
+    (forall q, qpop q = None -> q = []) /\
+    (forall q m q', qpop q = Some (m, q') ->
+       Permutation q (m :: q') /\ Forall (fun y : qnode => (fst m <= fst y)%Z) q').
+
+  Lemma list_queue_ok : queue_ok list_push pop_min.
+  Proof.
+    split; [|split].
+    - intros q e. unfold list_push. rewrite Permutation_app_comm. reflexivity.
+    - exact pop_min_none.
+    - exact pop_min_spec.
+  Qed.
+
+  Variable qpush : queue -> qnode -> queue.
+  Variable qpop : queue -> option (qnode * queue).
+  Hypothesis Hq : queue_ok qpush qpop.
+
+  Notation knn_order := (knn_order d lb qpush qpop).
+  Notation knn_loop := (knn_loop d lb qpush qpop).
+  Notation push_all := (push_all qpush).
+  Notation push_items := (push_items (R := R) d qpush).
+  Notation push_children := (push_children (I := I) lb qpush).
+
+  Lemma push_all_perm : forall es (q : queue), Permutation (push_all q es) (es ++ q).
+  Proof.
+    destruct Hq as [Hpush _].
+    induction es as [|e es IH]; intros q; cbn [Knn.push_all fold_left app]; [reflexivity|].
+    fold (push_all (qpush q e) es). rewrite IH, (Hpush q e). symmetry. apply Permutation_middle.
   Qed.
 
   (* ---- sizes and item lists ---- *)
@@ -76,31 +104,44 @@ Section KnnProofs.
 
   Lemma qsize_push_items (q : queue) its : qsize (push_items q its) = (qsize q + length its)%nat.
   Proof.
-    unfold Knn.push_items. rewrite qsize_app. f_equal. unfold qsize. rewrite map_map. simpl.
-    apply list_sum_ones.
+    unfold Knn.push_items. rewrite (qsize_perm _ _ (push_all_perm _ q)), qsize_app.
+    unfold qsize at 1. rewrite map_map. simpl. rewrite list_sum_ones. lia.
   Qed.
 
   Lemma qsize_push_children (q : queue) cs :
     S (qsize (push_children q cs)) = (qsize q + tsize (Node cs))%nat.
   Proof.
-    unfold Knn.push_children. rewrite qsize_app, tsize_node. unfold qsize at 2. rewrite map_map.
-    cbn [snd esize]. lia.
+    unfold Knn.push_children. rewrite (qsize_perm _ _ (push_all_perm _ q)), qsize_app, tsize_node.
+    unfold qsize at 1. rewrite map_map. cbn [snd esize]. lia.
   Qed.
 
   Lemma q_items_app (a b : queue) : q_items (a ++ b) = q_items a ++ q_items b.
   Proof. unfold q_items. apply flat_map_app. Qed.
 
-  Lemma q_items_push_items (q : queue) its : q_items (push_items q its) = q_items q ++ map snd its.
+  Lemma q_items_perm (a b : queue) : Permutation a b -> Permutation (q_items a) (q_items b).
+  Proof. intros H. unfold q_items. now apply Permutation_flat_map. Qed.
+
+  Lemma q_items_push_items (q : queue) its :
+    Permutation (q_items (push_items q its)) (q_items q ++ map snd its).
   Proof.
-    unfold Knn.push_items. rewrite q_items_app. f_equal. unfold q_items.
-    induction its as [|x r IH]; [reflexivity|]. cbn [map flat_map snd under app]. now rewrite IH.
+    unfold Knn.push_items. rewrite (q_items_perm _ _ (push_all_perm _ q)), q_items_app.
+    rewrite Permutation_app_comm. apply Permutation_app_head. unfold q_items.
+    induction its as [|x r IH]; [reflexivity|]. cbn [map flat_map snd under app]. now apply perm_skip.
   Qed.
 
   Lemma q_items_push_children (q : queue) cs :
-    q_items (push_children q cs) = q_items q ++ items_of (Node cs).
+    Permutation (q_items (push_children q cs)) (q_items q ++ items_of (Node cs)).
   Proof.
-    unfold Knn.push_children. rewrite q_items_app, items_of_node. f_equal. unfold q_items.
-    induction cs as [|x r IH]; [reflexivity|]. cbn [map flat_map snd under]. now rewrite IH.
+    unfold Knn.push_children. rewrite (q_items_perm _ _ (push_all_perm _ q)), q_items_app, items_of_node.
+    rewrite Permutation_app_comm. apply Permutation_app_head. unfold q_items.
+    induction cs as [|x r IH]; [reflexivity|]. cbn [map flat_map snd under]. now apply Permutation_app_head.
+  Qed.
+
+  Lemma Forall_push_all (P : qnode -> Prop) (q : queue) es :
+    Forall P q -> Forall P es -> Forall P (push_all q es).
+  Proof.
+    intros H1 H2. eapply Permutation_Forall; [symmetry; apply push_all_perm|].
+    apply Forall_app. split; assumption.
   Qed.
 
   (* ---- the hypothesis on the keys: a node's key is a lower bound for every item under it ---- *)
@@ -137,8 +178,9 @@ Section KnnProofs.
               Permutation (map fst l) (q_items q) /\ emitted_ok l /\ dist_sorted l.
   Proof.
     induction fuel as [|fuel IH]; intros q Hok Hf; [lia|].
-    cbn [Knn.knn_order]. destruct (pop_min q) as [[[k e] q']|] eqn:E.
-    - destruct (pop_min_spec _ _ _ E) as [Hp Hmin].
+    destruct Hq as (_ & Hnone & Hpop).
+    cbn [Knn.knn_order]. destruct (qpop q) as [[[k e] q']|] eqn:E.
+    - destruct (Hpop _ _ _ E) as [Hp Hmin].
       assert (Hok' : Forall e_ok ((k, e) :: q')) by (eapply Permutation_Forall; eauto).
       inversion Hok' as [|? ? He Hq']; subst.
       pose proof (qsize_perm _ _ Hp) as Hsz. rewrite qsize_cons in Hsz. cbn [snd] in Hsz.
@@ -161,7 +203,7 @@ Section KnnProofs.
           pose proof (e_ok_under ke _ (Hq' ke Hke) Hu). lia.
       + (* a leaf: its items enter the queue with their own distances *)
         assert (Hok2 : Forall e_ok (push_items q' its)).
-        { unfold Knn.push_items. apply Forall_app. split; [exact Hq'|].
+        { unfold Knn.push_items. apply Forall_push_all; [exact Hq'|].
           rewrite Forall_forall. intros ke Hke. apply in_map_iff in Hke. destruct Hke as (ri & <- & _).
           reflexivity. }
         destruct (IH (push_items q' its) Hok2) as (l & Hl & Hperm & Hem & Hs).
@@ -170,7 +212,7 @@ Section KnnProofs.
         rewrite Hperm, q_items_push_items, Hitems. cbn [under items_of]. apply Permutation_app_comm.
       + (* an inner node: its children enter the queue with the key of their rectangle *)
         assert (Hok2 : Forall e_ok (push_children q' cs)).
-        { unfold Knn.push_children. apply Forall_app. split; [exact Hq'|].
+        { unfold Knn.push_children. apply Forall_push_all; [exact Hq'|].
           destruct He as [Hlb _]. inversion Hlb as [|? Hcs]; subst.
           rewrite Forall_forall in *. intros ke Hke. apply in_map_iff in Hke. destruct Hke as (rc & <- & Hrc).
           destruct (Hcs rc Hrc) as [H1 H2]. split; assumption. }
@@ -178,7 +220,7 @@ Section KnnProofs.
         { pose proof (qsize_push_children q' cs). lia. }
         exists l. split; [exact Hl|]. split; [|split; assumption].
         rewrite Hperm, q_items_push_children, Hitems. cbn [under]. apply Permutation_app_comm.
-    - apply pop_min_none in E. subst q. exists []. repeat split; constructor.
+    - apply Hnone in E. subst q. exists []. repeat split; constructor.
   Qed.
 
   (* the caller's iterator sees exactly that order, until it says stop *)
@@ -193,7 +235,7 @@ Section KnnProofs.
   Proof.
     induction fuel as [|fuel IH]; intros q l s H; [discriminate|].
     cbn [Knn.knn_order Knn.knn_loop] in *.
-    destruct (pop_min q) as [[[k e] q']|].
+    destruct (qpop q) as [[[k e] q']|].
     - destruct e as [i|[its|cs]].
       + destruct (knn_order fuel q') as [l'|] eqn:E; [|discriminate]. injection H as <-.
         cbn [run_until]. destruct (f s i k) as [s' keep]. destruct keep; [|reflexivity].
@@ -223,28 +265,35 @@ Section KnnProofs.
 
   Hypothesis Hnn : forall i, (0 <= d i)%Z.   (* distances are not negative (the root's key is 0) *)
 
-  Lemma start_ok root : root_ok root -> Forall e_ok (start_queue root).
+  Lemma start_perm root :
+    Permutation (start_queue qpush root) (match root with None => [] | Some t => [(0%Z, QNode t)] end).
+  Proof. destruct Hq as [Hpush _]. destruct root as [t|]; cbn [start_queue]; [apply Hpush | reflexivity]. Qed.
+
+  Lemma start_ok root : root_ok root -> Forall e_ok (start_queue qpush root).
   Proof.
-    destruct root as [t|]; cbn [start_queue root_ok]; intros H; [|constructor].
+    intros H. eapply Permutation_Forall; [symmetry; apply start_perm|].
+    destruct root as [t|]; cbn [root_ok] in *; [|constructor].
     constructor; [|constructor]. split; [exact H|]. intros i _. apply Hnn.
   Qed.
 
-  Lemma start_items root : q_items (start_queue root) = root_items root.
-  Proof. destruct root; cbn; [apply app_nil_r | reflexivity]. Qed.
+  Lemma start_items root : Permutation (q_items (start_queue qpush root)) (root_items root).
+  Proof.
+    rewrite (q_items_perm _ _ (start_perm root)). destruct root; cbn; [now rewrite app_nil_r | reflexivity].
+  Qed.
 
   Theorem knn_sorted root :
     root_ok root ->
-    exists l, knn d lb root = Done l /\
+    exists l, knn d lb qpush qpop root = Done l /\
               Permutation (map fst l) (root_items root) /\ emitted_ok l /\ dist_sorted l.
   Proof.
     intros H. unfold knn.
-    destruct (knn_order_spec (S (qsize (start_queue root))) (start_queue root) (start_ok _ H)) as (l & H1 & H2 & H3 & H4); [lia|].
-    exists l. rewrite <- start_items. auto.
+    destruct (knn_order_spec (S (qsize (start_queue qpush root))) (start_queue qpush root) (start_ok _ H)) as (l & H1 & H2 & H3 & H4); [lia|].
+    exists l. split; [exact H1|]. split; [|auto]. rewrite H2. apply start_items.
   Qed.
 
   Theorem nearby_query_page test root maxd cursor limit l :
-    knn d lb root = Done l ->
-    nearby_query d lb test root maxd cursor limit = Done (page test (radius_stop maxd) l cursor limit).
+    knn d lb qpush qpop root = Done l ->
+    nearby_query d lb qpush qpop test root maxd cursor limit = Done (page test (radius_stop maxd) l cursor limit).
   Proof.
     unfold knn, nearby_query. intros H.
     rewrite (knn_loop_run _ _ _ _ _ H).
@@ -342,21 +391,24 @@ Section KnnQuery.
   Variable d : I -> Z.
   Variable lb : R -> Z.
   Hypothesis Hnn : forall i, (0 <= d i)%Z.
+  Variable qpush : @queue I R -> @qnode I R -> @queue I R.
+  Variable qpop : @queue I R -> option (@qnode I R * @queue I R).
+  Hypothesis Hq : queue_ok qpush qpop.
   Let all : I * Z -> bool := fun _ => true.
 
   (* LIMIT k, no radius, no filters: k items, none of the others is closer than any of them *)
   Theorem k_closest (root : option (@tree I R)) k max_dist :
     root_ok d lb root -> (1 <= k)%N -> (max_dist <= 0)%Z ->
     exists l res c,
-      knn d lb root = Done l /\ nearby_query d lb all root max_dist 0 k = Done (res, c) /\
+      knn d lb qpush qpop root = Done l /\ nearby_query d lb qpush qpop all root max_dist 0 k = Done (res, c) /\
       Permutation (map fst l) (root_items root) /\ emitted_ok d l /\
       res = firstn (N.to_nat k) l /\
       dist_sorted res /\
       (forall x y, In x res -> In y (skipn (N.to_nat k) l) -> (snd x <= snd y)%Z).
   Proof.
     intros Hok Hk Hm.
-    destruct (knn_sorted d lb Hnn root Hok) as (l & Hl & Hp & He & Hs).
-    exists l. rewrite (nearby_query_page d lb all root max_dist 0%N k l Hl).
+    destruct (knn_sorted d lb qpush qpop Hq Hnn root Hok) as (l & Hl & Hp & He & Hs).
+    exists l. rewrite (nearby_query_page d lb qpush qpop all root max_dist 0%N k l Hl).
     assert (Estop : forall e : I * Z, radius_stop max_dist e = (fun _ => false) e).
     { intros e. unfold radius_stop. destruct (0 <? max_dist)%Z eqn:E; [lia|reflexivity]. }
     assert (Epage : page all (radius_stop max_dist) l 0 k = page all (fun _ => false) l 0 k)
@@ -378,15 +430,15 @@ Section KnnQuery.
   Theorem radius_exact (root : option (@tree I R)) r limit :
     root_ok d lb root -> (0 < r)%Z ->
     exists l,
-      knn d lb root = Done l /\
+      knn d lb qpush qpop root = Done l /\
       unlimited all (radius_stop r) l = filter (fun e => (snd e <=? r)%Z) l /\
       Permutation (map fst (unlimited all (radius_stop r) l))
                   (filter (fun i => (d i <=? r)%Z) (root_items root)) /\
       ((N.of_nat (length l) < limit)%N ->
-       nearby_query d lb all root r 0 limit = Done (filter (fun e => (snd e <=? r)%Z) l, 0%N)).
+       nearby_query d lb qpush qpop all root r 0 limit = Done (filter (fun e => (snd e <=? r)%Z) l, 0%N)).
   Proof.
     intros Hok Hr.
-    destruct (knn_sorted d lb Hnn root Hok) as (l & Hl & Hp & He & Hs).
+    destruct (knn_sorted d lb qpush qpop Hq Hnn root Hok) as (l & Hl & Hp & He & Hs).
     exists l. split; [exact Hl|].
     assert (Hu : unlimited all (radius_stop r) l = filter (fun e => (snd e <=? r)%Z) l).
     { unfold unlimited.
@@ -396,7 +448,7 @@ Section KnnQuery.
       - unfold radius_stop. intros x y Hxy Hx. lia. }
     split; [exact Hu|]. split.
     - rewrite Hu, (map_fst_filter d r l He). apply Permutation_filter. exact Hp.
-    - intros Hlim. rewrite (nearby_query_page d lb all root r 0%N limit l Hl).
+    - intros Hlim. rewrite (nearby_query_page d lb qpush qpop all root r 0%N limit l Hl).
       rewrite (page_big_limit all (radius_stop r) l limit Hlim). now rewrite Hu.
   Qed.
 End KnnQuery.
